@@ -200,6 +200,8 @@ type OracleFailure struct {
 	Got   string `json:"got,omitempty"`
 	Want  string `json:"want,omitempty"`
 	Known string `json:"known,omitempty"` // id of a matching known finding, if any
+	// Shrunk: a smaller input on which the same oracle still fails (delta debugging over the document tree)
+	Shrunk any `json:"shrunk,omitempty"`
 }
 
 type Result struct {
